@@ -122,7 +122,7 @@ def close_helpers():
 # ------------------------------------------------------------------------ gen
 def _big(seed, tier, profile):
     # a quarter of the thorough-tier scenarios are larger (not for the real-monitor / paired profiles)
-    if profile in ('real', 'repro', 'units', 'delay'):
+    if profile in ('real', 'repro', 'units', 'delay', 'gdelay'):
         return False
     return random.Random('big/%s' % seed).random() < (0.25 if tier == 'thorough' else 0.04)
 
